@@ -12,13 +12,21 @@ Next == UNCHANGED c
 Spec == Init /\ [][Next]_c
 O == Obs[c]
 Reg == O.input.reg
-Valid(k) == DecodesExactly(Reg, O.checks[k].id, O.checks[k].bytes)
+\* a check with variant >= 0 feeds the payload of that variant (the bytes after the index byte) to the standalone struct built from
+\* the variant's field list (C18); the specification's decoder validates the payload against the field list
+PayloadFields(k) == LET d == Ty(Reg, O.checks[k].id).def
+                        v == CHOOSE x \in DOMAIN d.variants : d.variants[x].index = O.checks[k].variant
+                    IN [i \in DOMAIN d.variants[v].fields |-> d.variants[v].fields[i].ty]
+Valid(k) == IF O.checks[k].variant = -1 THEN DecodesExactly(Reg, O.checks[k].id, O.checks[k].bytes)
+            ELSE DecMany(Reg, PayloadFields(k), O.checks[k].bytes, 1, 4 * Len(Reg) + 8) = Len(O.checks[k].bytes) + 1
 \* ordered collections canonicalise (sort, de-duplicate) on decoding: an arbitrary sequence is a valid encoding of the registry's
 \* sequence-of-elements shape but re-encodes in canonical order; for them only "decodes and consumes all input" is required
 Canonicalises(id) == \E j \in Reach(Reg, id) : HasId(Reg, j) /\ Ty(Reg, j).path \in {<<"BTreeMap">>, <<"BTreeSet">>, <<"BinaryHeap">>}
 Failed ==
   (IF O.emitted /\ ~O.compiled THEN {"C02.CompilesUnderRustc"} ELSE {})
-  \cup (IF O.compiled /\ \E k \in DOMAIN O.checks : Valid(k) /\ ~(O.checks[k].decode /\ O.checks[k].rest = 0 /\ (O.checks[k].same \/ Canonicalises(O.checks[k].id))) THEN {"C01.DecodesConsumesAllReencodesSame"} ELSE {})
+  \cup (IF O.compiled /\ \E k \in DOMAIN O.checks : O.checks[k].variant # -1 /\ Valid(k) /\ ~(O.checks[k].decode /\ O.checks[k].rest = 0 /\ (O.checks[k].same \/ Canonicalises(O.checks[k].id)))
+        THEN {"C18.PayloadDecodesWithStandaloneStruct"} ELSE {})
+  \cup (IF O.compiled /\ \E k \in DOMAIN O.checks : O.checks[k].variant = -1 /\ Valid(k) /\ ~(O.checks[k].decode /\ O.checks[k].rest = 0 /\ (O.checks[k].same \/ Canonicalises(O.checks[k].id))) THEN {"C01.DecodesConsumesAllReencodesSame"} ELSE {})
 \* bytes produced by scale-encode that the specification's decoder does not accept: a disagreement between the two oracles, not a verdict
 OracleDisagreement == {k \in DOMAIN O.checks : ~Valid(k)}
 \* known finding D11: a generic definition that refers to itself is emitted with a root-qualified self-reference, which defeats the
